@@ -227,6 +227,9 @@ func (m ClientState) RestrictChain(cdc codec.BinaryCodec, store storetypes.KVSto
 		}
 		current = *tmpConsensus
 	}
+	// new is now the first block of the new branch above the common ancestor (height ti):
+	// it belongs to the main chain as well, and the rewrite below starts at its height
+	newHashes = append(newHashes, new.Hash())
 	for i := len(newHashes) - 1; i >= 0; i-- {
 		newTmp := store.Get(EthHeaderIndexKey(newHashes[i], ti.GetRevisionHeight()))
 		if newTmp == nil {
